@@ -60,6 +60,8 @@ func (mach *unmarshalMachineArrayWildcard) step_Initial(_ *Unmarshaller, slab *u
 		return true, ErrMalformedTokenStream{tok.Type, "start of array"}
 	case TNull:
 		mach.target_rv.Set(reflect.Zero(mach.target_rv.Type()))
+		// release the slab row we requisitioned for our value machine.
+		slab.release()
 		return true, nil
 	default:
 		return true, ErrMalformedTokenStream{tok.Type, "start of array"}
